@@ -1,0 +1,30 @@
+//! Observation hooks for runtime verification.
+//!
+//! Only compiled with `--cfg essential_base_verif`. Lets an external monitor watch the
+//! machine after every executed operation without changing behaviour.
+
+use crate::{Gas, Op, Vm};
+use std::sync::{Arc, RwLock};
+
+/// An observer notified by [`Vm::exec`] after every operation.
+pub trait StepObserver: Send + Sync {
+    /// Called after `op` was executed on `vm` (before the program counter is updated).
+    ///
+    /// `gas_spent` includes the cost of `op`. `failed` is `true` if the operation
+    /// returned an error. May be called concurrently from several threads.
+    fn after_op(&self, vm: &Vm, op: &Op, gas_spent: Gas, failed: bool);
+}
+
+static OBSERVER: RwLock<Option<Arc<dyn StepObserver>>> = RwLock::new(None);
+
+/// Install (or remove) the global observer.
+pub fn set_observer(observer: Option<Arc<dyn StepObserver>>) {
+    *OBSERVER.write().unwrap_or_else(|e| e.into_inner()) = observer;
+}
+
+pub(crate) fn notify(vm: &Vm, op: &Op, gas_spent: Gas, failed: bool) {
+    let observer = OBSERVER.read().unwrap_or_else(|e| e.into_inner()).clone();
+    if let Some(observer) = observer {
+        observer.after_op(vm, op, gas_spent, failed);
+    }
+}
